@@ -149,6 +149,38 @@ static bool make_pole(Rng& r, Problem& P) {
   return true;
 }
 
+// a square system with a QUOTIENT whose numerator is linear in x0 and whose denominator does not depend on x0 but is not
+// constant: x0/(x1-a) = b, x0 + c*x1 = d (root (p0,p1) planted, dyadic, p1-a a power of two so that the quotient is exact);
+// variants put the quotient inside a sum / use the second variable in the numerator as well
+static bool make_quot(Rng& r, Problem& P) {
+  int n = 2; P.n = n; P.m = n; P.k = 0;
+  double p1 = dyadic(r), den = std::ldexp(1.0, (int)r.range(-1, 2)) * (r.coin() ? 1 : -1), a = p1 - den;
+  double p0 = dyadic(r) * 2; if (p0 == 0) p0 = 1.5;
+  double b = p0 / den, c = r.range(1, 4) / 2.0 * (r.coin() ? 1 : -1), d = p0 + c * p1;
+  SystemFactory fac;
+  Array<const ExprSymbol> x(n); for (int i = 0; i < n; i++) x.set_ref(i, ExprSymbol::new_(("x" + to_string(i)).c_str(), Dim::scalar()));
+  IntervalVector box(n);
+  box[0] = Interval(p0 - r.range(1, 16) / 8.0, p0 + r.range(1, 16) / 8.0);
+  // the denominator keeps its sign on the box
+  double w = std::fabs(den) / 2; box[1] = Interval(p1 - w * r.range(1, 4) / 4.0, p1 + w * r.range(1, 8) / 4.0);
+  if (den < 0) box[1] = Interval(p1 - w * r.range(1, 8) / 4.0, p1 + w * r.range(1, 4) / 4.0);
+  fac.add_var(x, box);
+  const ExprNode* e1; int kind = r.below(3);
+  if (kind == 0) e1 = &(x[0] / (x[1] - a) - b);
+  else if (kind == 1) e1 = &(b - (2.0 * x[0] + x[1]) / (x[1] - a) + (p0 + p1) / den);        // (2x0+x1)/(x1-a) = (2p0+p1)/den at the root
+  else e1 = &((x[0] / (x[1] - a) - b) * 2.0);
+  if (kind == 1) { Interval v = Interval(2.0) * p0 + p1; (void)v; }
+  const ExprNode& e2 = x[0] + c * x[1] - d;
+  P.dags = dump_expr(*e1, x) + "|" + dump_expr(e2, x); P.specs = "eq|eq";
+  fac.add_ctr(ExprCtr(*e1, EQ)); fac.add_ctr(ExprCtr(e2, EQ));
+  P.sys = new System(fac);
+  P.planted.clear(); Vector p(n); p[0] = p0; p[1] = p1; P.planted.push_back(p);
+  // the planted point must be an exact zero (checked with the library's own evaluation at the point)
+  IntervalVector pv(p); Interval v1 = P.sys->f_ctrs[0].eval(pv), v2 = P.sys->f_ctrs[1].eval(pv);
+  if (!(v1.is_degenerated() && v1.lb() == 0 && v2.is_degenerated() && v2.lb() == 0)) { delete P.sys; return false; }
+  return true;
+}
+
 // a square system whose first equation is only defined on a part of the box: sqrt(x0-a) - b = 0 (zero a+b^2, exact), the box
 // reaching far below a, so that the midpoint of the box (and of many sub-boxes) lies outside the domain of definition
 static bool make_domain(Rng& r, Problem& P) {
